@@ -101,6 +101,10 @@ def short_circuit(rep, R):
     where = sorted({c.body.npath.split("::")[-1] for c, _ in sites})
     rep.check(where == ["visit_until_first"] and n >= 2, R, "fixture:effect-behind-any", "the short-circuit rule misses `iter_mut().any(|t| rewrite(t))` of the fixture or flags its clean twins: %s" % where,
               instance={"fixture": "visit_until_first / visit_all / pure_any", "flagged": where})
+    sk, m = layout.effects_skipped_by_own_flag(p, crates=("pasfmt_canary",), effects=("pasfmt_canary::Tok::set_content",), field_writes=())
+    where = sorted({c.body.npath.split("::")[-1] for c, _ in sk})
+    rep.check(where == ["visit_or_flag"] and m >= 3, R, "fixture:effect-behind-or", "the short-circuit rule misses `changed = changed || rewrite(t)` of the fixture or flags its clean twins (`|=`, a fixpoint loop): %s (%d sites)" % (where, m),
+              instance={"fixture": "visit_or_flag / visit_bitor_flag / rewrite_until_stable", "flagged": where})
 
 
 CANARIES = {
